@@ -9,6 +9,7 @@ import Tw.Model.HuffmanFreq
 import Tw.Proofs.HuffmanFreq
 import Tw.Proofs.HuffmanFreqInner
 import Tw.Proofs.HuffmanFreqLeaf
+import Tw.Proofs.HuffmanRefTree
 import Tw.Gen.Huffman
 
 /-!
@@ -240,6 +241,37 @@ theorem fromFrequencies_tables_partial (f : List Nat) (t : Table) (hok : fromFre
    fun input cap' cap hc => decompress_trunc t h input cap' cap hc,
    fun xs => (refCompress_eq_compress_bug t h xs).symm,
    fun fuel input cap out hr => refDecompress_agrees t h hl fuel input cap out hr⟩
+
+/-! ## the reference's own tree (`ConstructTree`, `Setbits_r`; model `refConstruct`) -/
+
+/-- For every frequency vector on which the reference's `int` arithmetic cannot overflow
+(`Σ f + 1 < 2^31`) and `from_frequencies` returns, the table it returns **is** the reference's tree
+(same inner nodes, every symbol the same `(bits, length)`); with the theorems of section (4) the codec
+is then byte-compatible with the reference for that table, not only for the built-in one.  The
+hypothesis is exactly the negation of the classifier of finding D16b. -/
+theorem fromFrequencies_is_reference_tree_partial (f : List Nat) (t : Table)
+    (hok : fromFrequencies f = .ok t) (hsum : f.sum + 1 < 2147483648) :
+    (refConstruct f).toTable = t := fromFrequencies_eq_refConstruct f t hok hsum
+
+/-- the shipped frequencies (regenerated from `huffman/data/frequencies`) satisfy the hypothesis -/
+theorem shipped_frequencies_in_int_range : Tw.Gen.Huffman.frequencies.sum + 1 < 2147483648 := by
+  decide +kernel
+
+/-- the full statement without the hypothesis — false: D16b -/
+def C07_reference_tree_full : Prop :=
+  ∀ (f : List Nat) (t : Table), f.length = 256 → (∀ x ∈ f, x < 2 ^ 32) →
+    fromFrequencies f = .ok t → (refConstruct f).toTable = t
+
+/-- **D16b in the model**: byte 0 with frequency `2^32 - 1` (−1 in the reference's `int`), every other
+byte 2.  The Rust merges EOF with byte 255 first, the reference merges byte 0 with EOF; whatever table
+`from_frequencies` returns, it is not the reference's tree. -/
+theorem reference_tree_signed_frequency_witness (t : Table)
+    (hok : fromFrequencies d16bFreqs = .ok t) : (refConstruct d16bFreqs).toTable ≠ t :=
+  d16b_witness t hok
+
+theorem reference_tree_first_merge_witness :
+    node (rustForest d16bFreqs) 257 = (256, 255)
+      ∧ node (refConstruct d16bFreqs).nodes 257 = (0, 256) := d16b_first_merge
 
 /-! ## non-vacuity -/
 
